@@ -56,7 +56,7 @@ func reachesAny(c *core.Ctx, fn *ssa.Function, stop func(*ssa.Function) bool) []
 }
 
 func c17(c *core.Ctx) {
-	c.Explain("C17 (federation routing): decided statically — R1 nothing reachable from the receive side (eventStreamHandler) re-enters forwarding: no call chain leads to sendMessage, to the MQTT publish handler or to the will path (received messages go through Publisher.Publish, which calls no OnMsgArrived hook); R2 a received retained message with empty payload removes the retained message and is never stored, a non-empty one is stored, non-retained ones touch nothing; R3 for a shared topic exactly one node is chosen per topic (one call of the send callback per topic, with an indexed member), the origin node and already-served nodes are skipped; R4 every event handed to a peer queue is a fresh Event object (the queue stamps its own id into it), retained messages go to every peer, non-shared ones only to nodes of the matched set that are peers; R5 the hook wrappers apply the routing decision (drop / rewritten options) to the request.")
+	c.Explain("C17 (federation routing): decided statically — R1 nothing reachable from the receive side (eventStreamHandler) re-enters forwarding: no call chain leads to sendMessage, to the MQTT publish handler or to the will path (received messages go through Publisher.Publish, which calls no OnMsgArrived hook); R2 a received retained message with empty payload removes the retained message and is never stored, a non-empty one is stored, non-retained ones touch nothing; R3 for a shared topic exactly one node is chosen per topic (one call of the send callback per topic, with an indexed member), the origin node and already-served nodes are skipped; R4 every event handed to a peer queue is a fresh Event object (the queue stamps its own id into it), retained messages go to every peer, non-shared ones only to nodes of the matched set that are peers; R5 the hook wrappers apply the routing decision (drop / rewritten options) to the request. Added in the second round: R6 a failed node's subscriptions leave the federation store under that node's own name.")
 	c.NotDecided("which nodes have matching subscriptions (runtime subscription sets), exactly-once delivery across the federation over histories")
 	p := c.P
 	eh := p.Func(fedPkg, "(*Federation).eventStreamHandler")
@@ -221,11 +221,30 @@ func c17(c *core.Ctx) {
 		// a node already served is skipped
 		okSent := false
 		ssax.Instrs(shared, false, func(_ *ssa.Function, in ssa.Instruction) {
-			if l, ok := in.(*ssa.Lookup); ok && l.CommaOk && l.Index == ssa.Value(paramOf(shared, 0)) {
+			l, ok := in.(*ssa.Lookup)
+			if !ok || !l.CommaOk || l.Index != ssa.Value(paramOf(shared, 0)) {
+				return
+			}
+			// the set of served nodes, not the peer table: and nothing is queued when the node is in it
+			if ssax.AnyIn(ssax.Backward(l.X), ssax.LoadOfField(fedPkg+".Federation.peers")) {
+				return
+			}
+			okv := ssax.ExtractOf(l, 1)
+			if okv == nil {
+				return
+			}
+			rs := ssax.Analyze(shared, ssax.ReachOpts{Pins: map[ssa.Value]ssax.AV{okv: ssax.AVTrue}, Start: l})
+			all := true
+			for _, a := range qadds {
+				if rs.Reachable(a.Instr) {
+					all = false
+				}
+			}
+			if all {
 				okSent = true
 			}
 		})
-		c.Check(okSent && len(qadds) >= 1, "C17.R3", "sendMessage|shared|once-per-node", fpos(c, shared), "a node is served at most once per message", "the shared branch no longer remembers which nodes were already sent the message")
+		c.Check(okSent && len(qadds) >= 1, "C17.R3", "sendMessage|shared|once-per-node", fpos(c, shared), "a node is served at most once per message", "the shared branch forwards to a node although it was already served for this message (the test of the served set is missing or does not prevent the enqueue): a publish matching two share groups hosted on one remote node is forwarded twice")
 	}
 
 	// ---- R4 fresh events, retained broadcast, non-shared set
